@@ -509,3 +509,11 @@ func (n *QueryFluxNode) Align() *QueryFluxNode {
 	n.AlignFlag = true
 	return n
 }
+
+// TimeDimension is the value of the time(length, offset) function
+// used as a dimension of QueryNode.GroupBy.
+// tick:ignore
+type TimeDimension struct {
+	Length time.Duration
+	Offset time.Duration
+}
